@@ -379,7 +379,10 @@ SOLO_RERUNS = [0]
 
 
 def is_timeout(rc, so):
-    return (rc == 1 and so.strip().endswith("timeout")) or rc == -9
+    # the watchdog prints `timeout` and exits 1; when the analysis goroutine ends the process at the same moment
+    # (editor modes call os.Exit themselves) the line is there with status 0
+    # (and the goroutine may even print more lines after it): any bare `timeout` line is the watchdog's
+    return (rc in (0, 1) and "timeout" in so.split("\n")) or rc == -9
 
 
 def run_ti(ti, args, cwd, env=None):
@@ -396,10 +399,12 @@ def run_ti(ti, args, cwd, env=None):
     _rw.w_acquire()
     try:
         SOLO_RERUNS[0] += 1
-        for _ in range(2):
+        # other processes may keep the machine busy: several attempts, spaced out; a genuine hang times out every time
+        for attempt in range(6):
             rc, so, se = run_ti_once(ti, args, cwd, env=env)
             if not is_timeout(rc, so):
                 break
+            time.sleep(0.4 * (attempt + 1))
     finally:
         _rw.w_release()
     return rc, so, se
